@@ -209,6 +209,10 @@ def dec_tv(tv):
         return tv["s"], U("str", tv.get("n", 0), s=tv["s"])
     if tg == "td":
         return _dt.timedelta(seconds=tv["n"], microseconds=tv.get("us", 0)), U("td", tv["n"])
+    if tg == "dt" and tv.get("ts"):
+        # a POSIX timestamp (http_date documents "datetime or timestamp"); floats carry an exactly representable fraction
+        ts = tv["n"] * 86400 + tv["m"]
+        return (ts + tv.get("us", 0) / 1e6 if tv["ts"] == "float" else ts), U("dt", tv["n"], tv["m"])
     if tg == "dt":
         d = EPOCH + _dt.timedelta(days=tv["n"], seconds=tv["m"], microseconds=tv.get("us", 0))
         d = _with_tz(d, tv.get("tzk"), tv.get("tz"))
@@ -666,6 +670,10 @@ def scalar_steps(prop, rng):
         for tzk in kinds:
             for day in (winter, summer):
                 out.append(dt(day, rng.randrange(86400), rng.choice([0, 1, 999999]), tzk=tzk))
+        if cls == "date":   # POSIX timestamps, int and float (whole seconds: the fraction is dropped)
+            for day, sec, us, ts in ((0, 0, 0, "int"), (0, 1337, 0, "int"), (19358, 86399, 500000, "float"), (20000, 1, 250000, "float"),
+                                     (rng.randrange(60000), rng.randrange(86400), 750000, "float"), (rng.randrange(60000), rng.randrange(86400), 0, "int")):
+                out.append({"op": "sc_assign", "prop": prop, "tv": {"tg": "dt", "n": day, "m": sec, "us": us, "ts": ts}})
         # the edges of the datetime range, with offsets that keep the local value representable
         out += [dt(-719162, 0, 0, 0), dt(-719162, 18000, 999999, -300), dt(-719162, 1, 1, tzk="zero"), dt(-683003, 0, 5, 60),
                 dt(2932896, 86399, 999999, 0), dt(2932896, 86399 - 19800, 0, 330), dt(2932896, 43200, 1, tzk="zerodst"),
